@@ -50,13 +50,14 @@ Inductive readiness :=
 | RUnknown      (* Ready=Unknown: NodeClassReady / ValidationSucceeded not decided yet *)
 | RAbsent.      (* no Ready condition at all (status not written yet) *)
 
-Record npool := mkNP { np_pool : pool; np_ready : readiness; np_static : bool; np_deleting : bool }.
+(* np_managed: the pool's nodeClassRef names a NodeClass kind of this provider (nodepoolutils.ListManaged) *)
+Record npool := mkNP { np_pool : pool; np_ready : readiness; np_static : bool; np_deleting : bool; np_managed : bool }.
 
 Definition is_rtrue (r : readiness) : bool := match r with RTrue => true | _ => false end.
 
-(* lo.Filter in NewScheduler: !IsStatic, StatusConditions().IsTrue(Ready), DeletionTimestamp.IsZero() *)
+(* ListManaged, then lo.Filter in NewScheduler: !IsStatic, StatusConditions().IsTrue(Ready), DeletionTimestamp.IsZero() *)
 Definition eligible (n : npool) : bool :=
-  negb (np_static n) && is_rtrue (np_ready n) && negb (np_deleting n).
+  np_managed n && negb (np_static n) && is_rtrue (np_ready n) && negb (np_deleting n).
 
 (* the pools the scheduler builds templates for, in template order *)
 Definition scheduler_pools (nps : list npool) : list pool :=
